@@ -105,6 +105,8 @@ def run(ck, ctx):
                      "or was cleared on every path to the push - or every pop side clears before handing it out; a handler releases its "
                      "input buffer with whatever unparsed bytes the last client left in it, and the next connection that acquires the "
                      "buffer would have them prepended to its own first command")
+    from . import c15
+    ck.rule("R04.13", c15.INCOMPLETE_TEXT + " (shared with C15 R15.13)")
     ck.rule("R04.12", "who may empty the connection's buffers: outside the read loop itself (`run`, where R04.3/R04.4 tie every discard to an "
                       "error reply and every clear of write_buffer to a successful write) no function of the handler clears, truncates, "
                       "takes or splits `write_buffer`, and none clears or truncates the input `buffer` - while a command executes, "
@@ -131,6 +133,7 @@ def run(ck, ctx):
         c15.prefix_rule(ck, prog, cfg, "R04.7")
         _r049(ck, prog, cfg)
         _r0412(ck, prog, cfg)
+        c15.incomplete_rule(ck, prog, cfg, "R04.13")
         _bounds.rule(ck, prog, cfg, "R04.10", ("src/production/connection_optimized.rs",),
                      "a read that ends right behind a command header (or a malformed frame)", floor=9, tag=_tag(cfg))
 
